@@ -363,9 +363,30 @@ func (sc *scen) expectIdleCut(h *nodeH, peerID string, from int) {
 	sc.count("withdrawn_after_cut")
 }
 
+// alignToPoll returns when the next ageing poll of node h is `before` away (the poll period is a constant of the code).
+func (sc *scen) alignToPoll(h *nodeH, before time.Duration) {
+	if _, _, ok := sc.waitEv(h, sc.col.length(), agePoll+10*time.Second, "idle_tick", nil); !ok {
+		sc.giveUp("no ageing poll of %s within %s", h.id, agePoll+10*time.Second)
+	}
+	time.Sleep(agePoll - before)
+}
+
+// silenceAt chooses when a link goes silent: at a random moment, or so that the next poll finds a silence that is
+// shorter than the idle limit (no cut may happen at that poll; the one after it must cut).
+func (sc *scen) silenceAt(h *nodeH) {
+	if sc.rng.Intn(2) == 0 {
+		sc.desc["silence"] = "random_phase"
+		time.Sleep(time.Duration(sc.rng.Intn(1500)) * time.Millisecond)
+
+		return
+	}
+	sc.desc["silence"] = "short_before_poll"
+	sc.alignToPoll(h, time.Duration(500+sc.rng.Intn(300))*time.Millisecond)
+}
+
 func (sc *scen) runTCPSilent() {
 	p := sc.tcpPair()
-	time.Sleep(time.Duration(sc.rng.Intn(1500)) * time.Millisecond)
+	sc.silenceAt(p.a)
 	from := sc.col.length()
 	p.rl.Silence()
 	sc.expectIdleCut(p.a, p.b.id, from)
@@ -601,38 +622,42 @@ func (sc *scen) runMemSilentStart() {
 // the session must end AND its reader / writer goroutines with it.
 func (sc *scen) runMemRejectTrailing() {
 	h, b := sc.memNode("n")
-	p, err := peer.Attach(b, "px", int64(sc.idx)+1)
-	if err != nil {
-		sc.giveUp("attach: %v", err)
-	}
-	if err := p.Handshake(h.id, 1, nil); err != nil {
-		sc.giveUp("handshake: %v", err)
-	}
-	if !sc.poll(10*time.Second, func() bool { return h.connected(p.ID) }) {
-		sc.giveUp("not established with the scripted peer within 10 s")
-	}
-	v := sc.rng.Intn(3)
-	sc.desc["first"] = []string{"reject_frame", "wrong_cost", "drop_us"}[v]
+	order := sc.rng.Perm(3)
+	sc.desc["order"] = fmt.Sprint(order)
 	ntrail := 1 + sc.rng.Intn(3)
 	sc.desc["trailing"] = ntrail
-	switch v {
-	case 0:
-		_ = p.SendRaw([]byte{netceptor.MsgTypeReject, '[', ']'})
-	case 1:
-		_ = p.OwnUpdate(map[string]float64{h.id: 7})
-	case 2:
-		_ = p.OwnUpdate(map[string]float64{})
+	for k, v := range order {
+		p, err := peer.Attach(b, fmt.Sprintf("p%c", 'x'+k), int64(sc.idx)*10+int64(k)+1)
+		if err != nil {
+			sc.giveUp("attach: %v", err)
+		}
+		if err := p.Handshake(h.id, 1, nil); err != nil {
+			sc.giveUp("handshake: %v", err)
+		}
+		if !sc.poll(10*time.Second, func() bool { return h.connected(p.ID) }) {
+			sc.giveUp("not established with the scripted peer %s within 10 s", p.ID)
+		}
+		from := sc.col.length()
+		switch v {
+		case 0: // type-3 reject frame
+			_ = p.SendRaw([]byte{netceptor.MsgTypeReject, '[', ']'})
+		case 1: // we disagree about the cost
+			_ = p.OwnUpdate(map[string]float64{h.id: 7})
+		case 2: // the peer no longer lists us
+			_ = p.OwnUpdate(map[string]float64{})
+		}
+		for i := 0; i < ntrail; i++ {
+			_ = p.OwnUpdate(map[string]float64{h.id: 1})
+		}
+		if _, _, ok := sc.waitEv(h, from, 10*time.Second, "sess_end", nil); !ok {
+			sc.giveUp("session did not end within 10 s of the rejection")
+		}
+		if !sc.poll(5*time.Second, func() bool { return h.gone(p.ID) }) {
+			// the session has ended; what is still listed is left to the trace (it may be a definite wrong value there)
+			sc.count("listed_after_rejection")
+		}
+		sc.count("ended_by_rejection")
 	}
-	for i := 0; i < ntrail; i++ {
-		_ = p.OwnUpdate(map[string]float64{h.id: 1})
-	}
-	if _, _, ok := sc.waitEv(h, sc.from, 10*time.Second, "sess_end", nil); !ok {
-		sc.giveUp("session did not end within 10 s of the rejection")
-	}
-	if !sc.poll(5*time.Second, func() bool { return h.gone(p.ID) }) {
-		sc.giveUp("%s still lists the peer 5 s after the session ended", h.id)
-	}
-	sc.count("ended_by_rejection")
 }
 
 type memPair struct {
@@ -665,7 +690,7 @@ func (m *memPair) link(sc *scen, hold bool) {
 func (sc *scen) runMemPairSilent() {
 	m := sc.memPair(false)
 	sc.mustConnect(m.a, m.b, estCeiling, "first establishment")
-	time.Sleep(time.Duration(sc.rng.Intn(1500)) * time.Millisecond)
+	sc.silenceAt(m.a)
 	from := sc.col.length()
 	m.pipe.Silence()
 	sc.expectIdleCut(m.a, m.b.id, from)
@@ -679,7 +704,7 @@ func (sc *scen) runMemPairSilent() {
 func (sc *scen) runMemPairOneWay() {
 	m := sc.memPair(false)
 	sc.mustConnect(m.a, m.b, estCeiling, "first establishment")
-	time.Sleep(time.Duration(sc.rng.Intn(1500)) * time.Millisecond)
+	sc.silenceAt(m.b)
 	from := sc.col.length()
 	m.pipe.AB.SetBlackhole(true) // b hears nothing any more
 	sc.expectIdleCut(m.b, m.a.id, from)
@@ -695,25 +720,21 @@ func (sc *scen) runMemPairHold() {
 	m := sc.memPair(false)
 	sc.mustConnect(m.a, m.b, estCeiling, "first establishment")
 	from := sc.col.length()
-	polls := 0
-	for polls < 2 {
-		stall := 200 + sc.rng.Intn(500)
+	for k := 0; k < 2; k++ {
+		sc.alignToPoll(m.a, time.Duration(400+sc.rng.Intn(300))*time.Millisecond)
 		m.pipe.AB.SetHold(true)
 		m.pipe.BA.SetHold(true)
-		time.Sleep(time.Duration(stall) * time.Millisecond)
+		time.Sleep(900 * time.Millisecond) // the poll falls into the stall, which stays below the idle limit
 		m.pipe.AB.SetHold(false)
 		m.pipe.BA.SetHold(false)
-		time.Sleep(600 * time.Millisecond)
-		polls = 0
-		for _, r := range sc.col.since(from) {
-			if str(r, "ev") == "idle_scan_end" && owner(r) == m.a.vn {
-				polls++
-			}
-		}
-		if time.Since(sc.t0) > 40*time.Second {
-			sc.giveUp("fewer than 2 ageing polls in 40 s")
+	}
+	polls := 0
+	for _, r := range sc.col.since(from) {
+		if str(r, "ev") == "idle_scan_end" && owner(r) == m.a.vn {
+			polls++
 		}
 	}
+	sc.desc["polls"] = polls >= 2
 	sc.count("kept_alive_over_polls")
 	if !m.a.connected(m.b.id) || !m.b.connected(m.a.id) {
 		// a stall is shorter than the idle limit, but a loaded machine may stretch it: the trace decides
